@@ -14,9 +14,30 @@ its declarations (subtypes before supertypes, features referring to later types)
   in particular the result does not depend on the declaration order.
 
 `tsxml_roundtrip_redeclared`: the same when the permuted descriptor additionally redeclares built-in types exactly as the
-library defines them (the re-emitted descriptor then starts with those redeclarations).
+library defines them, and/or DocumentAnnotation as the library defines it (the re-emitted descriptor then starts with
+those redeclarations, sorted by name).  `tsxml_roundtrip_docann`: the special case of a redeclared DocumentAnnotation.
+
+CHANGED STATEMENT (`tsxml_roundtrip_redeclared`).  The statement as first given,
+
+    theorem tsxml_roundtrip_redeclared … (d d' pre : Descriptor) (hd : …)
+        (hpre : ∀ e ∈ pre, Gen.consts.predefined.contains e.name = true ∧ e.name ≠ DOCUMENT_ANNOTATION ∧
+          builtinEntry e.name = some e)
+        (hp : d'.Perm (pre ++ d)) : ∃ ts' preOut, … (as below)
+
+is FALSE of the model and of the implementation alike (evaluated in `Spec/TsXmlRoundTripCheck.lean`, `counterTop`,
+`counterDup`; Python agrees on both):
+
+* `pre = [builtinEntry "uima.cas.TOP"]` (= `{ name := "uima.cas.TOP", super := "" }`): the load fails with `KeyError`
+  (the empty supertype name resolves to nothing) — hypothesis `hnt` added;
+* `pre = [e, e]` for an entry with features, e.g. `uima.cas.ArrayBase` (or `uima.cas.Sofa`): the features of the two
+  declarations accumulate and the comparison with the built-in definition raises `ValueError` — hypothesis `hnd` added
+  (featureless entries such as `uima.cas.String` may in fact be repeated; not covered).
+
+The conjunct `e.name ≠ DOCUMENT_ANNOTATION` was redundant (DocumentAnnotation is not a predefined name) and is replaced
+by the alternative `e = docEntry`, which lets the descriptor redeclare DocumentAnnotation.
 -/
 import CassisModel.Proofs.TsXmlRoundTrip
+import CassisModel.Proofs.TsXmlRoundTripDemo
 
 namespace Cassis.TsXml
 open Cassis.TS
@@ -37,13 +58,47 @@ def builtinEntry (n : String) : Option TDesc :=
 theorem tsxml_roundtrip_redeclared (ops : List TsOp) (h : UserOnlyNoDoc Gen.consts ops)
     (hns : NoShadow (ops.foldl (applyOp Gen.consts) Gen.builtinTS))
     (d d' pre : Descriptor) (hd : toDescriptor Gen.consts (ops.foldl (applyOp Gen.consts) Gen.builtinTS) = .ok d)
-    (hpre : ∀ e ∈ pre, Gen.consts.predefined.contains e.name = true ∧ e.name ≠ DOCUMENT_ANNOTATION ∧
-      builtinEntry e.name = some e)
+    (hpre : ∀ e ∈ pre, (Gen.consts.predefined.contains e.name = true ∧ builtinEntry e.name = some e) ∨ e = docEntry)
+    (hnt : ∀ e ∈ pre, e.name ≠ TOP) (hnd : pre.Nodup)
     (hp : d'.Perm (pre ++ d)) :
     ∃ ts' preOut, load Gen.consts d' = .ok ts' ∧
       SameXml (ops.foldl (applyOp Gen.consts) Gen.builtinTS) ts' ∧
       toDescriptor Gen.consts ts' = .ok (preOut ++ d.map trimT) ∧
-      preOut.map (·.name) = sortStrs (pre.map (·.name)).eraseDups ∧ ∀ e ∈ preOut, builtinEntry e.name = some e :=
-  tsxml_roundtrip_redeclared_aux ops h hns d d' pre hd hpre hp
+      preOut.map (·.name) = sortStrs (pre.map (·.name)).eraseDups ∧
+      ∀ e ∈ preOut, builtinEntry e.name = some e ∨ e = docEntry :=
+  tsxml_roundtrip_redeclared_aux ops h hns d d' pre hd hpre hnt hnd hp
+
+/-- a descriptor that declares DocumentAnnotation itself: it is remembered and written first -/
+theorem tsxml_roundtrip_docann (ops : List TsOp) (h : UserOnlyNoDoc Gen.consts ops)
+    (hns : NoShadow (ops.foldl (applyOp Gen.consts) Gen.builtinTS))
+    (d d' : Descriptor) (hd : toDescriptor Gen.consts (ops.foldl (applyOp Gen.consts) Gen.builtinTS) = .ok d)
+    (hp : d'.Perm (docEntry :: d)) :
+    ∃ ts', load Gen.consts d' = .ok ts' ∧
+      SameXml (ops.foldl (applyOp Gen.consts) Gen.builtinTS) ts' ∧
+      toDescriptor Gen.consts ts' = .ok (docEntry :: d.map trimT) :=
+  tsxml_roundtrip_docann_aux ops h hns d d' hd hp
+
+/-! Non-vacuity: the history `Demo.demoOps` (a chain whose emitted descriptor lists the subtype first, a padded and an
+empty description, a feature named `self` ranging over a type declared later, an array feature with element type)
+satisfies all hypotheses (`Proofs/TsXmlRoundTripDemo.lean`); `Demo.demoD'` is another order of its descriptor, and
+`Demo.demoPre` redeclares DocumentAnnotation, FSArray, ArrayBase and Annotation. -/
+example : ∃ ts', load Gen.consts Demo.demoD' = .ok ts' ∧
+    SameXml (Demo.demoOps.foldl (applyOp Gen.consts) Gen.builtinTS) ts' ∧
+    toDescriptor Gen.consts ts' = .ok (Demo.demoD.map trimT) :=
+  tsxml_roundtrip Demo.demoOps Demo.demo_user Demo.demo_noShadow Demo.demoD Demo.demoD' Demo.demo_descriptor
+    Demo.demo_perm
+
+example : ∃ ts' preOut, load Gen.consts (Demo.demoD' ++ Demo.demoPre) = .ok ts' ∧
+    SameXml (Demo.demoOps.foldl (applyOp Gen.consts) Gen.builtinTS) ts' ∧
+    toDescriptor Gen.consts ts' = .ok (preOut ++ Demo.demoD.map trimT) ∧
+    preOut.map (·.name) = sortStrs (Demo.demoPre.map (·.name)).eraseDups ∧
+    ∀ e ∈ preOut, builtinEntry e.name = some e ∨ e = docEntry :=
+  tsxml_roundtrip_redeclared Demo.demoOps Demo.demo_user Demo.demo_noShadow Demo.demoD (Demo.demoD' ++ Demo.demoPre)
+    Demo.demoPre Demo.demo_descriptor Demo.demo_pre Demo.demo_pre_notop Demo.demo_pre_nodup
+    ((List.perm_append_comm).trans (List.Perm.append_left _ Demo.demo_perm))
 
 end Cassis.TsXml
+
+#print axioms Cassis.TsXml.tsxml_roundtrip
+#print axioms Cassis.TsXml.tsxml_roundtrip_redeclared
+#print axioms Cassis.TsXml.tsxml_roundtrip_docann
